@@ -296,7 +296,7 @@ def check(ctx: Ctx) -> None:
     ctx.selftest("a history with a corrupted expected buffer shape is rejected", any("shape" in v["key"] for v in probe.violations))
     ctx.traces_validated = len(res.records)
     ctx.exhaustive = False
-    ctx.rule = ("Market.tla: every history of 2 (thorough 3) simulate(n_paths in {1,3}, steps in {1,2,5[,21]}, default/custom init) per primary kind, replayed in 2 (4) dtypes "
+    ctx.rule = ("Market.tla: every history of 2 (thorough 3) simulate(n_paths in {1,3}, horizons in half steps {0,2,3,8} [thorough {0,3,8,41}], default/custom init) per primary kind, replayed in 2 (4) dtypes "
                 "and rotating parameter regimes; generators: 9 x regimes x n_paths x n_steps x init x dtype; random draws seeded; distinct = distinct history / generator case")
     ctx.assumptions += ["finiteness and sign are checked on seeded random draws (exploration), shape/dtype/first column/replacement on every enumerated history",
                         "zero is accepted for 'positive' price processes (floating-point underflow); a negative value is not"]
